@@ -170,9 +170,9 @@ PROPS = {
     ),
     'C12': dict(
         technique='ASan+UBSan run comparing API writes and getter reads with an independent layout table (byte offset, width, bit mask, big-endian) on raw object images; header sizes and reserved bits of default objects',
-        level_text='Exploration, exhaustive for small fields: (a) sizes of all header classes and default payloads equal the standard, reserved bits of default objects are zero; (b) a value written through the API appears big-endian at exactly the table position and nothing else changes; (c) for arbitrary raw images every getter returns the value the table extracts; (d) reserved bits survive every in-range write; (e) the variable-length parts written by setData (length prefixes, data, NUL / zero padding of strings and stream-id lists) sit at the offsets the layout prescribes, from default objects and from objects with prior content. Same executions as C11 (a-d) and C13 (e), judged against the layout table / wire-model serialisation. Packet::getRawCmpHeader / getRawMessageHeader are called for every message type into destinations pre-filled with zeros, ones and random bytes and all 24 bytes are compared with the layout; TECMP type words, TECMP LIN setData and the derived voltage getter are covered.',
+        level_text='Exploration, exhaustive for small fields: (a) sizes of all header classes and default payloads equal the standard, reserved bits of default objects are zero; (b) a value written through the API appears big-endian at exactly the table position and nothing else changes; (c) for arbitrary raw images every getter returns the value the table extracts; (d) reserved bits survive every in-range write; (e) the variable-length parts written by setData (length prefixes, data, NUL / zero padding of strings and stream-id lists) sit at the offsets the layout prescribes, from default objects and from objects with prior content. Same executions as C11 (a-d) and C13 (e), judged against the layout table / wire-model serialisation. Packet::getRawCmpHeader / getRawMessageHeader are called for every message type into destinations pre-filled with zeros, ones and random bytes and all 24 bytes are compared with the layout; TECMP type words, TECMP LIN setData and the derived voltage getter are covered. A second stage runs the codec driver: the 16 message header bytes of every message the encoder emits (random batches and call histories, all message types) are compared with the layout computed from the packet\'s fields, and the reserved byte of every frame header must be zero.',
         level_note='Trusted: the layout table, transcribed from ASAM CMP 1.0 / TECMP as documented in DESIGN.md section 6 (the standard documents are not in the sandbox; the captured frames in the repository tests corroborate it).',
-        stages=[dict(driver='drv_fields', flavour='asan')],
+        stages=[dict(driver='drv_fields', flavour='asan'), dict(driver='drv_codec', flavour='asan')],
         rule='cases = (class, field, background) with every in-range value written (exhaustive for fields <= 8 bits, for <= 16 bits a 600-value lattice in quick and exhaustive in thorough, boundary + walking bits + 64 random for wider fields, special and random finite values for floats) + random sequences of 8..64 setter calls on one object; every setter call is one evaluation. distinct_nontrivial = distinct (class, field, background in {default, all-zero, all-ones, random}, value class in {0, max, single-bit, other}) tuples.',
         assumptions=COMMON_ASSUME,
         floors=dict(quick={'distinct_nontrivial': 2000, 'feat:fields_exercised': 175, 'size_checks': 20, 'reserved_checks': 16, 'variable_part_layout_cases': 10000}, thorough={'distinct_nontrivial': 2000, 'feat:fields_exercised': 175}),
